@@ -88,7 +88,7 @@ def main():
     obs = [{"name": "good", "kind": "print", "callee": "println_i64", "w": [65531, 65535, 65535, 65535], "stdout": "-5\n", "status": 0},
            {"name": "missing-newline", "kind": "print", "callee": "println_i64", "w": [65531, 65535, 65535, 65535], "stdout": "-5", "status": 0},
            {"name": "wrong-digit", "kind": "print", "callee": "print_i64", "w": [10, 0, 0, 0], "stdout": "11", "status": 0},
-           {"name": "arity-ran-anyway", "kind": "arity", "callee": "", "w": [0, 0, 0, 0], "stdout": "7\n", "status": 0}]
+           {"name": "arity-ran-anyway", "kind": "arity", "callee": "", "w": [0, 0, 0, 0], "stdout": "7\n", "stderr": "", "status": 0, "ranlike": True}]
     d = os.path.join(work, "rt"); os.makedirs(d, exist_ok=True)
     json.dump(obs, open(os.path.join(d, "obs.json"), "w"))
     r = tlc_batch("RuntimeCheck", "RuntimeCheck.cfg", d, {"SCCV_CASES": os.path.join(d, "obs.json")}, len(obs), timeout=300)
